@@ -22,6 +22,7 @@ type WTarget struct {
 	Any      bool
 	Except   []string // with Any: ghost variables that are not written
 	ElemBase Term     // all element objects selem(ElemBase, _) of a slice of structs (1-D field regions)
+	ElemRoot Term     // all objects stored inside the backing array ElemRoot (structs nested in its elements): root(r) == root(ElemRoot)
 	ConstLen int      // with Lo/Hi: Hi - Lo when it is a small literal constant (s[e:e+8]), else 0
 }
 
@@ -120,7 +121,8 @@ func (fc *FnCtx) evalTargets(x ast.Expr, env *Env) []WTarget {
 				if su := structOf(et); su != nil {
 					for i := 0; i < su.NumFields(); i++ {
 						if isObjectType(su.Field(i).Type()) {
-							panic(specErr("elems(s): nested struct fields not supported"))
+							ts = append(ts, fc.nestedElemTargets(su.Field(i).Type(), a.Sl.Base, 0)...)
+							continue
 						}
 						for _, lf := range cellLeaves(su.Field(i).Type()) {
 							ts = append(ts, WTarget{Region: typeName(et) + "." + su.Field(i).Name() + lf.suffix, ElemBase: a.Sl.Base})
@@ -211,6 +213,37 @@ func (fc *FnCtx) evalTargets(x ast.Expr, env *Env) []WTarget {
 	panic(specErr("unsupported modifies target: " + fc.eng.exprText(x)))
 }
 
+// nestedElemTargets lists the field regions of a struct type nested (by value) in the
+// elements of the backing array base; the locations are all objects of that allocation.
+func (fc *FnCtx) nestedElemTargets(T types.Type, base Term, depth int) []WTarget {
+	var ts []WTarget
+	if depth > 6 {
+		panic(specErr("elems(s): nesting too deep"))
+	}
+	switch u := T.Underlying().(type) {
+	case *types.Struct:
+		for i := 0; i < u.NumFields(); i++ {
+			ft := u.Field(i).Type()
+			if isObjectType(ft) {
+				ts = append(ts, fc.nestedElemTargets(ft, base, depth+1)...)
+				continue
+			}
+			for _, lf := range cellLeaves(ft) {
+				ts = append(ts, WTarget{Region: typeName(T) + "." + u.Field(i).Name() + lf.suffix, ElemRoot: base})
+			}
+		}
+	case *types.Array:
+		if isObjectType(u.Elem()) {
+			ts = append(ts, fc.nestedElemTargets(u.Elem(), base, depth+1)...)
+		} else {
+			for _, lf := range cellLeaves(u.Elem()) {
+				ts = append(ts, WTarget{Region: "elem<" + leafTypeName(u.Elem()) + ">" + lf.suffix, ElemRoot: base})
+			}
+		}
+	}
+	return ts
+}
+
 // objectTargets lists every location stored by value inside the object at ref.
 func (fc *FnCtx) objectTargets(ref Term, T types.Type) []WTarget {
 	var ts []WTarget
@@ -230,7 +263,13 @@ func (fc *FnCtx) objectTargets(ref Term, T types.Type) []WTarget {
 		}
 	case *types.Array:
 		if isObjectType(u.Elem()) {
-			panic(unsupported("modifies over an array of objects"))
+			if u.Len() > 16 {
+				panic(unsupported("modifies over a long array of objects"))
+			}
+			for i := int64(0); i < u.Len(); i++ {
+				ts = append(ts, fc.objectTargets(fc.vc.elemPtr(ref, itoa(i), u.Elem()).S, u.Elem())...)
+			}
+			return ts
 		}
 		for _, lf := range cellLeaves(u.Elem()) {
 			ts = append(ts, WTarget{Region: "elem<" + leafTypeName(u.Elem()) + ">" + lf.suffix, Idx: []Term{ref}, Row: true})
@@ -294,6 +333,12 @@ func (fc *FnCtx) havoc(st *State, ts []WTarget) {
 				// the fields of every element object of one backing array
 				nm := vc.sc.fresh(t.Region+"@", arraySort(ri.nidx, ri.leaf))
 				fc.assume(fmt.Sprintf("(forall ((r Int)) (! (=> (or (>= r 0) (not (= (selem_b r) %s))) (= (select %s r) (select %s r))) :pattern ((select %s r))))", t.ElemBase, nm, cur, nm))
+				st.Heap[t.Region] = nm
+				vc.typeInv(t.Region, nm, ri.nidx)
+			case t.ElemRoot != "":
+				// the fields of every object stored inside one backing array (same allocation)
+				nm := vc.sc.fresh(t.Region+"@", arraySort(ri.nidx, ri.leaf))
+				fc.assume(fmt.Sprintf("(forall ((r Int)) (! (=> (not (= (root r) (root %s))) (= (select %s r) (select %s r))) :pattern ((select %s r))))", t.ElemRoot, nm, cur, nm))
 				st.Heap[t.Region] = nm
 				vc.typeInv(t.Region, nm, ri.nidx)
 			case t.Row:
@@ -401,6 +446,10 @@ func (fc *FnCtx) allowedWrite(region string, idx []Term, row bool, lo, hi Term) 
 			if len(idx) > 0 {
 				cs = append(cs, and(app("<", idx[0], "0"), eq(app("selem_b", idx[0]), t.ElemBase)))
 			}
+		case t.ElemRoot != "":
+			if len(idx) > 0 {
+				cs = append(cs, eq(app("root", idx[0]), app("root", t.ElemRoot)))
+			}
 		case t.Row:
 			cs = append(cs, eq(idx[0], t.Idx[0]))
 		case t.Lo != "":
@@ -501,6 +550,17 @@ func (fc *FnCtx) frameCheckTargets(ts []WTarget, what string, in ssa.Instruction
 					alts = append(alts, "true")
 				} else if m.Region == t.Region && m.ElemBase != "" {
 					alts = append(alts, eq(m.ElemBase, t.ElemBase))
+				}
+			}
+			c = or(alts...)
+		case t.ElemRoot != "":
+			alts := []Term{app(">=", app("root", t.ElemRoot), fc.root().na0), eq(t.ElemRoot, "0")}
+			mine, _ := fc.myTargets()
+			for _, m := range mine {
+				if m.Region == t.Region && (m.Whole || (m.ElemRoot != "" && m.ElemRoot == t.ElemRoot)) {
+					alts = append(alts, "true")
+				} else if m.Region == t.Region && m.ElemRoot != "" {
+					alts = append(alts, eq(app("root", m.ElemRoot), app("root", t.ElemRoot)))
 				}
 			}
 			c = or(alts...)
@@ -753,7 +813,7 @@ func (fc *FnCtx) applyCall(ci calleeInfo, in ssa.Instruction, st *State, resT ty
 	// of its receiver (one of its own exit obligations), so the caller may rely on it
 	if ci.con.Kind == "func" && ci.fn != nil && ci.fn.Signature.Recv() != nil && len(ci.args) > 0 {
 		if pt, ok := ci.fn.Signature.Recv().Type().Underlying().(*types.Pointer); ok {
-			if oi := fc.eng.cs.ObjInvs[typeName(pt.Elem())]; oi != nil {
+			if oi := fc.eng.cs.ObjInvs[stripTypeParams(typeName(pt.Elem()))]; oi != nil {
 				save := fc.pkg
 				if p := fc.eng.pkgs[ci.con.PkgPath]; p != nil {
 					fc.pkg = p
@@ -1138,7 +1198,25 @@ func (fc *FnCtx) copyBuiltin(dst, src Val, in ssa.Instruction, st *State, resT t
 	}
 	n := vc.sc.define("copyn", "Int", ite(app("<=", dst.Sl.Len, slen), dst.Sl.Len, slen))
 	if isObjectType(et) {
-		panic(unsupported("copy of object slices"))
+		// a slice of structs: the destination's elements become unknown (every field of every
+		// element object of its backing array is havocked); only the count is specified
+		su := structOf(et)
+		if su == nil {
+			panic(unsupported("copy of object slices"))
+		}
+		var ts []WTarget
+		for i := 0; i < su.NumFields(); i++ {
+			if isObjectType(su.Field(i).Type()) {
+				ts = append(ts, fc.nestedElemTargets(su.Field(i).Type(), dst.Sl.Base, 0)...)
+				continue
+			}
+			for _, lf := range cellLeaves(su.Field(i).Type()) {
+				ts = append(ts, WTarget{Region: typeName(et) + "." + su.Field(i).Name() + lf.suffix, ElemBase: dst.Sl.Base})
+			}
+		}
+		fc.frameCheckTargets(ts, "copy into "+fc.nameOfArg(in, 0), in)
+		fc.havoc(st, ts)
+		return intV(n, resT)
 	}
 	for _, lf := range cellLeaves(et) {
 		name := "elem<" + leafTypeName(et) + ">" + lf.suffix
@@ -1268,7 +1346,7 @@ func (fc *FnCtx) objInvariants(cur, old *State) []invTerm {
 	if !ok {
 		return nil
 	}
-	oi := fc.eng.cs.ObjInvs[typeName(pt.Elem())]
+	oi := fc.eng.cs.ObjInvs[stripTypeParams(typeName(pt.Elem()))]
 	if oi == nil {
 		return nil
 	}
